@@ -299,9 +299,10 @@ def explore(machine, vfs0, bodies, bound=None, max_runs=200000, on_complete=None
                 max_preemptions=max_pre, secs=round(time.perf_counter() - t0, 2))
 
 
-def run_sequential(machine, vfs, body, kill_at=None, pid=0, incarnation=0):
+def run_sequential(machine, vfs, body, kill_at=None, pid=0, incarnation=0, fail_at=None):
     """Runs one virtual process to completion on `vfs` (mutated in place). With kill_at=k the process is killed
-    at its k-th file-system primitive: that primitive and all later ones are refused.
+    at its k-th file-system primitive: that primitive and all later ones are refused. With fail_at=k the k-th primitive
+    is not executed and raises OSError(EIO) once (a transient I/O error); the process goes on as its code decides.
     -> (result, number of primitives executed, trace)"""
     p = VProc(machine, pid, body, incarnation)
     state = {"n": 0, "dead": False}
@@ -313,6 +314,11 @@ def run_sequential(machine, vfs, body, kill_at=None, pid=0, incarnation=0):
         if kill_at is not None and state["n"] == kill_at:
             state["dead"] = True
             raise Kill()
+        if fail_at is not None and state["n"] == fail_at:
+            state["n"] += 1
+            trace.append((pid, op, args, ("err", "injected EIO")))
+            import errno
+            raise OSError(errno.EIO, "Input/output error (injected)")
         state["n"] += 1
 
     def post(op, args, res):
